@@ -88,6 +88,9 @@ pub fn rule_texts(thorough: bool) -> Vec<&'static str> {
         r#"{"in":[{"var":""},[-1,"é"]]}"#, "1", "-1", "-1.5e3", r#""-x""#, r#""""#, "null", "true", "[1,{\"var\":\"a\"}]", "{}", r#"{"a":1,"b":2}"#,
         r#"  {"var" : "" }  "#, "\n{\"!\":[{\"var\":\"\"}]}\n", r#"{"var":"é"}"#, r#"{"cat":["\u00e9\ud83d\ude00",{"var":""}]}"#,
         r#"{"reduce":[{"var":""},{"+":[{"var":"current"},{"var":"accumulator"}]},0]}"#,
+        // results that need JSON escaping when printed
+        r#"{"var":"q"}"#, r#"{"cat":["C:",{"var":"sep"},"tmp"]}"#, r#"{"cat":["l1","\n","l2",{"var":"nl"}]}"#, r#""a\"b\\c""#, r#"{"cat":["\u0001\t",{"var":"q"}]}"#,
+        r#"{"merge":[{"var":"q"},"\"",{"var":"sep"}]}"#,
         // invalid texts
         "", " ", "{", r#"{"var":"#, r#"{"var":""} {"var":""}"#, "NaN", "'a'", r#"{'var':''}"#, "[1,]", "01", "-", "--", "undefined",
     ];
@@ -101,6 +104,7 @@ pub fn data_texts(thorough: bool) -> Vec<&'static str> {
     let mut v = vec![
         "null", "1", "-1", "-2.5", "0", r#""str""#, r#""é😀""#, "[1,2,3]", "[]", r#"{"a":1}"#, r#"{"a":{"b":2},"é":"x"}"#, r#"{"a":0}"#, "true",
         r#" {"a" : [1, 2] } "#, "[-1]", r#""-1""#, r#"[1,"2",[3]]"#,
+        r#"{"a":"say \"hi\"","sep":"\\","q":"\"","nl":"x\ny"}"#, r#""q\"uote\\ \u00e9 \u2028""#,
         // invalid
         "", "{", "nul", "'x'", "1 2", "[1,", "-",
     ];
